@@ -257,7 +257,7 @@ func val1(c *Ctx) {
 				problems = append(problems, "strconv error result is dropped")
 			} else {
 				for _, r := range ir.ReturnPoints(fn) {
-					if ir.IsNilConst(r.Results[0]) && !errIsNilAt(errV, r.Block()) {
+					if ir.IsNilConst(r.Results[0]) && !errIsNilH(errV, r.Holds) {
 						problems = append(problems, fmt.Sprintf("return nil at %s is not dominated by err == nil", c.P.Pos(r.Pos())))
 					}
 				}
@@ -290,12 +290,16 @@ func extractOf(t ssa.Value, idx int) ssa.Value {
 // errIsNilAt reports whether error value e is known to be nil at block b
 // (b is dominated by the nil edge of a comparison of e with nil).
 func errIsNilAt(e ssa.Value, b *ssa.BasicBlock) bool {
-	if errCmpAt(e, b, true) {
+	return errIsNilH(e, func(v ssa.Value, want bool) bool { return ir.HoldsAt(v, want, b) })
+}
+
+func errIsNilH(e ssa.Value, holds func(ssa.Value, bool) bool) bool {
+	if errCmpH(e, holds, true) {
 		return true
 	}
 	// merged with other outcomes at a join: `err := f(); ...; err = g(); if err == nil`
 	for _, u := range *e.Referrers() {
-		if phi, ok := u.(*ssa.Phi); ok && errCmpAt(phi, b, true) {
+		if phi, ok := u.(*ssa.Phi); ok && errCmpH(phi, holds, true) {
 			return true
 		}
 	}
@@ -304,6 +308,10 @@ func errIsNilAt(e ssa.Value, b *ssa.BasicBlock) bool {
 
 // errCmpAt: a comparison of e with nil is known to have the outcome (e == nil) == wantNil at b.
 func errCmpAt(e ssa.Value, b *ssa.BasicBlock, wantNil bool) bool {
+	return errCmpH(e, func(v ssa.Value, want bool) bool { return ir.HoldsAt(v, want, b) }, wantNil)
+}
+
+func errCmpH(e ssa.Value, holds func(ssa.Value, bool) bool, wantNil bool) bool {
 	if e.Referrers() == nil {
 		return false
 	}
@@ -314,11 +322,11 @@ func errCmpAt(e ssa.Value, b *ssa.BasicBlock, wantNil bool) bool {
 		}
 		switch bo.Op {
 		case token.NEQ:
-			if ir.HoldsAt(bo, !wantNil, b) {
+			if holds(bo, !wantNil) {
 				return true
 			}
 		case token.EQL:
-			if ir.HoldsAt(bo, wantNil, b) {
+			if holds(bo, wantNil) {
 				return true
 			}
 		}
@@ -348,11 +356,15 @@ func errIsNilAtOld(e ssa.Value, b *ssa.BasicBlock) bool {
 
 // errIsNonNilAt is the dual of errIsNilAt.
 func errIsNonNilAt(e ssa.Value, b *ssa.BasicBlock) bool {
-	if errCmpAt(e, b, false) {
+	return errIsNonNilH(e, b, func(v ssa.Value, want bool) bool { return ir.HoldsAt(v, want, b) })
+}
+
+func errIsNonNilH(e ssa.Value, b *ssa.BasicBlock, holds func(ssa.Value, bool) bool) bool {
+	if errCmpH(e, holds, false) {
 		return true
 	}
 	for _, u := range *e.Referrers() {
-		if phi, ok := u.(*ssa.Phi); ok && errCmpAt(phi, b, false) {
+		if phi, ok := u.(*ssa.Phi); ok && errCmpH(phi, holds, false) {
 			// only if the phi's other edges cannot be what made it non-nil is this about e; accept when
 			// control reaches b only through e's edge
 			vals := ir.PhiValuesAt(phi, b)
@@ -659,7 +671,7 @@ func val3(c *Ctx) {
 					// return false must not be dominated by a successful application
 					bad := false
 					for _, a := range apps {
-						if errIsNilAt(a.call, r.Block()) {
+						if errIsNilH(a.call, r.Holds) {
 							bad = true
 						}
 					}
@@ -668,7 +680,7 @@ func val3(c *Ctx) {
 				}
 				good := false
 				for _, a := range apps {
-					if errIsNilAt(a.call, r.Block()) {
+					if errIsNilH(a.call, r.Holds) {
 						good = true
 					}
 				}
@@ -682,7 +694,7 @@ func val3(c *Ctx) {
 				}
 				cont := false
 				for _, r := range ir.ReturnPoints(fn) {
-					if errIsNonNilAt(a.call, r.Block()) {
+					if errIsNonNilH(a.call, r.Block(), r.Holds) {
 						cont = false
 						c.Bad(key+":next-variable/"+kind, r.Pos(), "returns on a failed application instead of trying the next variable")
 						goto next
@@ -749,7 +761,7 @@ func val3multi(c *Ctx, fn *ssa.Function) {
 	// error returned at once
 	okErr := false
 	for _, r := range ir.ReturnPoints(fn) {
-		if r.Results[0] == ssa.Value(set) && errIsNonNilAt(set, r.Block()) {
+		if r.Results[0] == ssa.Value(set) && errIsNonNilH(set, r.Block(), r.Holds) {
 			okErr = true
 		}
 	}
@@ -957,7 +969,7 @@ func val5(c *Ctx) {
 				// must be dominated by IsDefault() true
 				okDom := false
 				for _, call := range ir.Calls(fn) {
-					if cv, ok := call.(*ssa.Call); ok && ir.IsInvokeOf(cv, "IsDefault") && ir.HoldsAt(cv, true, r.Block()) {
+					if cv, ok := call.(*ssa.Call); ok && ir.IsInvokeOf(cv, "IsDefault") && r.Holds(cv, true) {
 						okDom = true
 					}
 				}
